@@ -86,7 +86,7 @@ CHECKS = {
  "C19": dict(
    engine="E4-external",
    technique="bounded-exhaustive enumeration of command-line inputs and Python API call sequences run through the real binary / extension out of process, differential against the in-process library (explicit enumeration of operation sequences up to a depth)",
-   text="CLI: every file of at most 2 (thorough 3) lines over five line bodies x LF / CRLF / missing final terminator x seven flag sets is fed to the real `sudachi` binary built from /repo; stdout must equal byte for byte what the library and the documented column / wakati format give for each line without its terminator. Python: every call sequence up to depth 2 (thorough 3) over 27 operations (tokenize with and without per-call mode and out=, a failing call with per-call mode, Morpheme.split with and without out=, lookup with and without out=, holding a morpheme across list reuse) for four tokenizer configurations on the real extension: results equal the library's, text[begin:end] is the raw surface, per-call modes do not stick, the interpreter finishes.",
+   text="CLI: every file of at most 2 (thorough 3) lines over seven line bodies x LF / CRLF / missing final terminator x seven flag sets is fed to the real `sudachi` binary built from /repo; stdout must equal byte for byte what the library and the documented column / wakati format give for each line without its terminator. Python: every call sequence up to depth 2 (thorough 3) over 29 operations (tokenize with and without per-call mode and out=, a failing call with per-call mode, Morpheme.split with and without out=, lookup with and without out=, holding a morpheme across list reuse) for four tokenizer configurations on the real extension: results equal the library's, text[begin:end] is the raw surface, per-call modes do not stick, the interpreter finishes.",
    note="Subjects run out of process (E4); the pre_tokenizer path needs the `tokenizers` package, which is not installed, and is not exercised; the Python thread run is a sample. " + TRUSTED,
    ref="DESIGN.md §3 C19"),
  "C20": dict(
